@@ -133,6 +133,9 @@ func zooEntries(s string) []zooEntry {
 		{"z_ascii", "plain ascii text 123", "ascii string"},
 		{"z_multi", "日本語 テキスト 😀 é", "multi-byte string"},
 		{"z_badutf", "bad\xff\xfeutf\xc3", "invalid UTF-8 string"},
+		{"z_badhtml1", "<b>bold</b\xff> tail <i>x</i\xc3", "invalid UTF-8 inside closing tags"},
+		{"z_badhtml2", "<a\xff href='x'>t</\xfea> &amp\xff; </\ufffdb> <p\xe2\x82>", "invalid UTF-8 inside opening tags, closing tags and entities"},
+		{"z_badhtml3", "</\xff", "unterminated closing tag ending in an invalid byte"},
 		{"z_numstr", "42", "numeric string"},
 		{"z_hiddenkey", "hidden", "name of an unexported field"},
 		{"z_floatstr", "-3.75", "float string"},
@@ -242,6 +245,12 @@ func zooEntries(s string) []zooEntry {
 			}
 			return s.String()
 		}, "func(fmt.Stringer) string"},
+		{"f_variface", func(xs ...fmt.Stringer) string { return fmt.Sprint(len(xs)) }, "func(...fmt.Stringer) string"},
+		{"f_iface_variface", func(a fmt.Stringer, xs ...fmt.Stringer) string { return fmt.Sprint(a == nil, len(xs)) }, "func(fmt.Stringer, ...fmt.Stringer) string"},
+		{"f_errarg", func(e error) string { return fmt.Sprint(e == nil) }, "func(error) string"},
+		{"f_varerr", func(i int, es ...error) string { return fmt.Sprint(i, len(es)) }, "func(int, ...error) string"},
+		{"f_varany", func(xs ...any) string { return fmt.Sprint(len(xs)) }, "func(...any) string"},
+		{"f_varvalue", func(xs ...*pongo2.Value) string { return fmt.Sprint(len(xs)) }, "func(...*pongo2.Value) string"},
 	}
 	return es
 }
